@@ -332,7 +332,7 @@ func judge(c *core.Ctx, n int) (map[string]any, error) {
 	// canary (binding self-test of the judge): /(a)|b/.exec("ab") recorded with capture 1 = "b" must be rejected
 	canary, _ := json.Marshal(map[string]any{"i": n + 1, "fam": "strm", "form": "ctor", "m": "exec", "src": units("(a)|b"), "flags": units(""), "s": units("ab"),
 		"li": intV(0), "got": map[string]any{"thr": "", "log": []string{}, "v": map[string]any{"t": "arr", "a": []any{
-			map[string]any{"t": "match", "index": intV(0), "input": strV("ab"), "caps": []any{strV("a"), strV("b")}}, intV(0)}}}})
+			map[string]any{"t": "match", "index": intV(0), "input": strV("ab"), "caps": []any{strV("a"), strV("b")}, "attr": []bool{true, true, true, true, true, true}}, intV(0)}}}})
 	trace.Write(canary)
 	trace.WriteByte('\n')
 	canaryRejected := false
